@@ -74,6 +74,23 @@ def run_case(case, res):
                         else:
                             scale_ok = all(x is y for x, y in zip(s0.reshape(-1), s1.reshape(-1)))
                         res.query("moves-keep-codes-and-change-only-scale-dtype", "ALG", "unsat" if same_codes and scale_ok else "sat", 0.0, sub=cfg, nvars=len(m.ctx.vars))
+                        if not scale_ok and same_codes:
+                            # the scale terms are not the plain dtype conversion: solve for a scale under which they really differ
+                            try:
+                                import z3
+
+                                from symt import rerr
+
+                                tdt = outs[0].dtype
+                                exp_ = [m.ctx.cast(x, tdt) for x in s0.reshape(-1)] if name in ("to-float16", "float()") else list(s0.reshape(-1))
+                                r = rerr.Rerr(m.ctx, ideal=True)
+                                neq = [r.tr(a_) != r.tr(b_) for a_, b_ in zip(s1.reshape(-1), exp_) if a_ is not b_]
+                                v, secs, mdl = api.solve(r.cons + [z3.Or(*neq)] + [r.tr(t) > 0 for t in s0.reshape(-1)], 30)
+                                if v == "sat":
+                                    sc = api.tensor_from_values(api.real_model_values(r, mdl, sym["scale"], torch.float64), tuple(q._scale.shape), q._scale.dtype)
+                                    res.candidate("codes:" + name, "RERR-ideal", dict(kind="op", op=name, state=kind, dtype=case["dtype"], q=dict(data=api.enc_tensor(q._data), scale=api.enc_tensor(sc)), codes=True))
+                            except NotImplementedError:
+                                pass
                         if not (same_codes and scale_ok):
                             res.candidate("codes:" + name, "ALG", dict(kind="op", op=name, state=kind, dtype=case["dtype"], q={k: api.enc_tensor(v) for k, v in (dict(data=q._data, scale=q._scale) if q.qtype.bits == 8 else dict(data=q._data.unpack(), scale=q._scale, zp=q._zeropoint)).items()}, codes=True))
         return
@@ -142,6 +159,9 @@ def replay(rec):
             c1, s1 = codes_of(outs[0], lambda t: t)
             if not all(torch.equal(a.view(torch.uint8) if a.element_size() == 1 else a, b.view(torch.uint8) if b.element_size() == 1 else b) for a, b in zip(c0, c1)):
                 probs.append("codes changed by a move/copy")
+            exp_s = s0.to(s1.dtype)
+            if exp_s.shape != s1.shape or not torch.equal(exp_s, s1):
+                probs.append(f"a move changed the scale values, not only their dtype: {s0.reshape(-1)[:3].tolist()} -> {s1.reshape(-1)[:3].tolist()}")
         key = None
         if probs and inp["op"] in ("split", "split-last", "chunk") and all("reports shape" in p or "payload shape" in p for p in probs):
             key = ["C06/split-reports-unsplit-size"]
